@@ -148,7 +148,14 @@ class ReplayController:
                 if n == 'CancelledError':
                     return 'cancelled'
                 if n == 'TimeoutError':
-                    return 'timeout'
+                    # the wait expired — unless the future is done and this IS its stored exception
+                    r = getattr(obj, '_real', None)
+                    try:
+                        stored = r.exception(0) if (r is not None and r.done() and not r.cancelled()) else None
+                    except Exception:
+                        stored = None
+                    if stored is not exc:
+                        return 'timeout'
                 if op == 'result':
                     try:
                         return ('exc', rt.vals.intern(exc))
